@@ -1598,7 +1598,8 @@ class Alarm(Component):
         trigger = self.get("TRIGGER")
         if trigger is None:
             return "START"
-        return trigger.params.get("RELATED", "START")
+        # unquoted parameter values are case-insensitive (RFC 5545, 2): RELATED=end is END
+        return trigger.params.get("RELATED", "START").upper()
 
     @TRIGGER_RELATED.setter
     def TRIGGER_RELATED(self, value: str):
